@@ -29,7 +29,7 @@ ASSUMPTIONS = ["without a lock only non-suspending sources are claimed (as the p
                "class-based cancellation-safe source: an item is consumed only after the last suspension of __anext__",
                "consumers close their child when they stop (owner closes what it advanced)"]
 EXHAUSTIVE = {"quick": False, "thorough": False}
-N_SCEN = {"quick": 220, "thorough": 2500}
+N_SCEN = {"quick": 600, "thorough": 6000}
 DFS_LIMIT = {"quick": 1500, "thorough": 40000}
 RANDOM_RUNS = {"quick": 60, "thorough": 400}
 
